@@ -65,6 +65,29 @@ of a process one small document of every class with record fields is parsed, dum
 assignment, and before a case on such a name the name is used, in the case's spelling, in the
 classes where it carries records: a paragraph is judged in a process that has used the library
 for other kinds of control file before.
+
+case (kind "records") = {"kind": "records", "cls": str, "key": str,     a record field of that class
+        "place": str,                 where the field stands before (REC_PLACES; "absent": a new key)
+        "n": int, "at": int, "comp": int, "value": str,   n records; record at % n gets value as its
+                                                          component number comp % (components)
+        "also": [[at, comp, value], ...],                 further components set the same way
+        "rec": str, "route": str, "origin": str,          REC_TYPES, REC_ROUTES, ORIGINS
+        "sizes": str}                                     Release.size_field_behavior (REC_SIZES)
+
+What such a field is *meant* to hold - a list of records (one record for the -Current fields of a
+pdiff Index) - with a string of the property's domain as one component of one record: the value
+assigned is then made of strings, and the statement's "can never add a field, truncate the paragraph
+or start a new one" applies to what is written.  The records are plain dicts, Deb822Dicts or records
+the parser handed out; the list is assigned by ``d[key] = records``, the ``update`` forms or
+``setdefault``, or a record the paragraph already holds is changed in place (``d[key][i][comp] =
+value``); for a Release both documented settings of ``size_field_behavior`` are used.  Judged:
+EITHER the assignment or ``dump()`` is refused with ValueError or TypeError (a refused assignment
+must leave the paragraph as it was) - nothing is written, nothing can be injected - OR the text
+``dump()`` returns, re-read like any accepted value (generic reader, own class's constructor and
+``iter_paragraphs``, six input forms, the default parser setting when the text has no
+whitespace-only line), gives one paragraph with exactly the paragraph's field names.  Which strings
+are refused is not asked (the unchanged library refuses, from ``dump()``, every component holding
+LF or CR and writes everything else).
 """
 import io
 import itertools
@@ -116,8 +139,17 @@ RULE = ("a case is (paragraph, key, value); enumerated: every string of 0..4 cha
         "SHA1-History on PdiffIndex, ... - assigned as a plain string with the field absent, present with "
         "records, or present under another spelling; generated cases do the same with token values; "
         "record fields also occur as neighbours, holding records. "
+        "Lists of records as a dimension: for each of the 102 (class, record field, component) triples a "
+        "list of three records (or one) in which one component - checksum, size (the padded column of "
+        "Release and PdiffIndex), section, priority, name, date, filename - of the first, middle or last "
+        "record holds a token of the value pool or '7' + token + 'B: x' (generated: a token sequence, up to "
+        "three components at once), assigned by d[k]=v / update / setdefault or set in place in a record "
+        "the paragraph holds, records being dicts, Deb822Dicts or parser-made, both "
+        "Release.size_field_behavior settings: refused (nothing written) or written and read back as "
+        "one paragraph with the same names. "
         "Non-trivial = the value is rejected, or is accepted and contains a line boundary (LF or CR), or "
-        "is a string for a record field, or the paragraph was parsed from a text containing CR; "
+        "is a string for a record field, or the paragraph was parsed from a text containing CR, or (record "
+        "lists) the write is refused or the component holds LF, CR, ':', a leading '#'/'-' or only blanks; "
         "distinct = distinct canonical JSON of the case")
 ASSUMPTIONS = [
     "rejection rule restated by hand: reject iff the value ends in LF, or some line after the first is "
@@ -141,6 +173,16 @@ ASSUMPTIONS = [
     "raises TypeError from dump() for every non-empty one); accepted and dumped -> the rule must say "
     "accept and the generic reader must give the same names; the own-class readers and merge_fields "
     "are not used for such a case",
+    "record lists (kind 'records'): the names of the components of a record in each class are restated "
+    "by hand (md5sum/sha1/.../size/name, Changes Files with section and priority, pdiff Index "
+    "SHA1|SHA256/size/date|filename); 'refused' = ValueError or TypeError from the assignment or from "
+    "dump() (the unchanged library accepts every assignment and raises ValueError from dump() for a "
+    "component holding LF or CR); a refused assignment must leave list(d.items()) as it was, a refused "
+    "dump() is not asked to (the paragraph then still holds the records); no string is required to be "
+    "refused or to be accepted; a refusal while setting a component in place in a held record is taken "
+    "as it comes; the default parser setting is used for the re-read only if the written text has no "
+    "whitespace-only line (a record of blank components is one); field names only are compared - the "
+    "own-class readers take the written lines apart as records again, whatever they hold",
     "origin 'text': a text the parser refuses (ValueError) or that holds no paragraph gives no case; "
     "a parsed paragraph holding a record field of its own class is skipped (records with generated "
     "content are C12's business), and so is one holding a name that is not a Policy 5.1 field name (a "
@@ -215,6 +257,16 @@ EXHAUSTIVE_STRAY = {
              "then an ordinary value assigned to another or a new field; reader, class and route cycling",
     "thorough": "the same with every string of 0..4 characters (22 621; strings of 3..4 characters: one "
                 "form each)",
+}
+EXHAUSTIVE_RECORD_LISTS = {
+    "quick": "every (class, record field of that class, component of its records) triple (102) x every "
+             "token of the value pool (53), the token alone and '7' + token + 'B: x' as the component "
+             "(position of the record cycling; for the 24 tokens holding LF or CR the latter in the first, "
+             "the middle and the last of three records); place of the field in the paragraph (absent / first / middle / last), other "
+             "spelling of the name, one record instead of three, kind of record object (dict, Deb822Dict, "
+             "handed out by the parser), route (d[k]=v, update forms, setdefault, changing a held record in "
+             "place), origin and Release.size_field_behavior cycling",
+    "thorough": "the same, every case with all three kinds of record object and both size-column settings",
 }
 BUDGET = {"quick": 400, "thorough": 2400}
 
@@ -522,13 +574,32 @@ def effective_class(cls, origin):
     return "Dsc" if (cls == "Deb822" and origin == "dsc-empty") else cls
 
 
-def records(cls, name):
-    """What a ``cls`` paragraph holds under its record field ``name``: two well-formed records (one,
+def single_record(cls, name):
+    """The -Current fields of a pdiff Index hold one record (written on the field's own line)."""
+    return cls == "PdiffIndex" and name.lower().endswith("-current")
+
+
+def records(cls, name, n=2):
+    """What a ``cls`` paragraph holds under its record field ``name``: ``n`` well-formed records (one,
     for the single-record fields of a pdiff Index), obtained the ordinary way - by parsing."""
     rec = _record_line(cls, name)
-    single = cls == "PdiffIndex" and name.lower().endswith("-current")
-    text = "%s: %s\n" % (name, rec) if single else "%s:\n %s\n %s\n" % (name, rec, rec)
+    text = "%s: %s\n" % (name, rec) if single_record(cls, name) else "%s:\n%s" % (name, (" %s\n" % rec) * n)
     return getattr(_lib, cls)(text)[name]
+
+
+def components(cls, name):
+    """The names of the components of one record of field ``name`` of class ``cls``, in the order
+    they are written (restated by hand from the file formats, spelt as the class spells them)."""
+    low = name.lower()
+    if cls == "PdiffIndex":
+        h = "SHA256" if "sha256" in low else "SHA1"
+        return [h, "size"] + ([] if low.endswith("-current") else
+                              ["filename"] if low.endswith("-download") else ["date"])
+    if low == "files":
+        return ["md5sum", "size", "section", "priority", "name"] if cls == "Changes" else ["md5sum", "size", "name"]
+    if cls == "Release":
+        return [low, "size", "name"]
+    return [low.split("-", 1)[1], "size", "name"]          # Checksums-Sha1 -> sha1, Checksums-Md5 -> md5
 
 
 # ------------------------------------------------------------------------------------------
@@ -610,6 +681,8 @@ def render(fields, eols, final=True):
 
 
 def check(case):
+    if isinstance(case, dict) and case.get("kind") == "records":
+        return check_records(case)
     if not (isinstance(case, dict) and name_ok(case.get("key"))
             and in_domain(case.get("value")) and isinstance(case.get("cls", "Deb822"), str)
             and case.get("cls", "Deb822") in STRUCTURED and isinstance(case.get("route", "setitem"), str)
@@ -815,6 +888,166 @@ def check(case):
     if any(":" in l for l in split_lines(value)[1:]):
         labels.append("accepted-colon-in-continuation")
     return (multiline or record_key or (from_text and "\r" in src["text"]), labels)
+
+
+# ------------------------------------------------------------------------------------------
+# a list of records assigned to a record field: one component of one record holds the string
+
+REC_TYPES = ["dict", "Deb822Dict", "parsed"]
+REC_ROUTES = ["setitem", "update-dict", "update-Deb822Dict", "update-pairs", "update-kwargs", "setdefault",
+              "mutate"]
+REC_PLACES = ["absent", "first", "middle", "last"]
+REC_SIZES = ["apt-ftparchive", "dak"]
+REFUSAL = (ValueError, TypeError)
+
+
+def _plain(v):
+    """A value of the paragraph as plain data (records are mutable: a snapshot must not share them)."""
+    if isinstance(v, str):
+        return v
+    if hasattr(v, "items"):
+        return [[k, str(x)] for k, x in v.items()]
+    if isinstance(v, list):
+        return [_plain(r) for r in v]
+    return repr(v)
+
+
+def _snap(d):
+    return [[k, _plain(v)] for k, v in d.items()]
+
+
+def _good_records(cls, name, n, rtype):
+    """``n`` well-formed records of the field (one mapping for a single-record field), as plain
+    dicts, as Deb822Dicts built from pairs, or as the parser hands them out."""
+    comps = components(cls, name)
+    if rtype == "parsed":
+        return records(cls, name, n)
+    vals = _record_line(cls, name).split()
+    if rtype == "dict":
+        recs = [dict(zip(comps, vals)) for _ in range(n)]
+    else:
+        recs = [Deb822Dict(list(zip(comps, vals))) for _ in range(n)]
+    return recs[0] if single_record(cls, name) else recs
+
+
+def check_records(case):
+    """A list of records (a single record for the -Current fields of a pdiff Index) is assigned to
+    a record field of the paragraph's class - or a record the paragraph holds is changed in place -
+    and one component of one record (more with "also") holds a string of the property's domain.
+    EITHER the assignment or ``dump()`` refuses (ValueError / TypeError; a refused assignment
+    leaves the paragraph as it was) and nothing is written, OR the text written reads back as one
+    paragraph with exactly the paragraph's field names.  Which strings are refused is not asked."""
+    cls, key, value = case.get("cls"), case.get("key"), case.get("value")
+    if not (isinstance(cls, str) and cls in STRUCTURED and isinstance(key, str)
+            and key.lower() in STRUCTURED_LOWER[cls] and in_domain(value)
+            and all(isinstance(case.get(k, 0), int) and not isinstance(case.get(k, 0), bool)
+                    for k in ("n", "at", "comp"))):
+        return (False, ("invalid-or-out-of-domain-case-skipped",))
+    also = case.get("also", [])
+    if not (isinstance(also, list) and all(
+            isinstance(a, list) and len(a) == 3 and isinstance(a[0], int) and isinstance(a[1], int)
+            and in_domain(a[2]) for a in also)):
+        return (False, ("invalid-or-out-of-domain-case-skipped",))
+    canon = [n for n in STRUCTURED[cls] if n.lower() == key.lower()][0]
+    comps = components(cls, canon)
+    single = single_record(cls, canon)
+    place = case.get("place", "absent")
+    place = place if place in REC_PLACES else "absent"
+    rtype = case.get("rec", "dict")
+    rtype = rtype if rtype in REC_TYPES else "dict"
+    origin = case.get("origin", "new")
+    origin = origin if (origin in ORIGINS and origin not in ("copy", "mapping")) else "new"
+    A, K, Z = AKZ
+    fields = {"absent": [A, K, Z], "first": [[canon, K[1]], A, Z], "middle": [A, [canon, K[1]], Z],
+              "last": [A, Z, [canon, K[1]]]}[place]
+
+    warm_up()
+    d = make_paragraph(fields, origin, cls)
+    if type(d).__name__ != cls:
+        return (False, ("origin-gave-another-class-skipped",))
+    labels = ["records", "class:" + cls, "origin:" + origin, "place:" + place]
+    sizes = case.get("sizes")
+    if cls == "Release" and sizes in REC_SIZES:
+        d.size_field_behavior = sizes            # documented: how wide the size column is written
+        labels.append("sizes:" + sizes)
+    names_before = [f[0] for f in fields]
+    expect_lower = [n.lower() for n in names_before] + ([key.lower()] if place == "absent" else [])
+
+    route = case.get("route", "setitem")
+    route = route if route in REC_ROUTES else "setitem"
+    if route == "mutate" and place == "absent":
+        route = "setitem"
+    route = effective_route(route, key, place == "absent")
+
+    hostile = [[case.get("at", 0), case.get("comp", 0), value]] + also
+    if route == "mutate":
+        held = d[key]
+        n = 1 if single else len(held)
+    else:
+        n = 1 if single else min(max(case.get("n", 1), 1), 4)
+        held = _good_records(cls, canon, n, rtype)
+        labels.append("rec-type:" + rtype)
+    what = []
+    for at, ci, v in hostile:
+        what.append("record %d of %d, component %r = %r" % (at % n, n, comps[ci % len(comps)], v))
+        labels.append("comp:" + comps[ci % len(comps)])
+        labels.append("at:" + ("only" if n == 1 else "first" if at % n == 0 else
+                               "last" if at % n == n - 1 else "middle"))
+    how = "%s paragraph (%s), field %r %s; %s" % (cls, ", ".join(names_before), key, route, "; ".join(what))
+    labels.append("route:" + route)
+    if len(hostile) > 1:
+        labels.append("several-components")
+    boundary = any("\n" in v or "\r" in v for _a, _c, v in hostile)
+
+    before = _snap(d)
+    try:
+        for at, ci, v in hostile:
+            (held if single else held[at % n])[comps[ci % len(comps)]] = v
+        if route != "mutate":
+            assign(d, key, held, route)
+    except REFUSAL as e:
+        if route != "mutate" and _snap(d) != before:
+            raise Violation("records:rejected-but-state-changed",
+                            "%s raised %s but items went from %s to %s"
+                            % (how, type(e).__name__, short(before), short(_snap(d))))
+        labels.append("records:assignment-refused:" + type(e).__name__)
+        return (True, labels)
+
+    names = list(d.keys())
+    try:
+        text = d.dump()
+    except REFUSAL as e:
+        # nothing is written, nothing can be read back
+        labels.append("records:dump-refused:" + type(e).__name__)
+        return (True, labels)
+    if not isinstance(text, str):
+        raise Violation("dump-not-a-string", "after %s dump() gave %s" % (how, short(text)))
+    if [x.lower() for x in names] != expect_lower:
+        raise Violation("records:object-keys-unexpected", "after %s keys are %r, expected (ignoring case) %r"
+                        % (how, names, expect_lower))
+    settings = [("wsp-off", WSP_OFF)]
+    # "whenever no continuation line is blank": a record whose components are all blank is
+    # written as a whitespace-only line
+    if not any(l.strip(" \t") == "" for l in split_lines(text)):
+        settings.append(("default", None))
+    else:
+        labels.append("records:blank-line-written")
+    for rname, read in _readers(cls):
+        for sname, strict in settings:
+            for fname, make in _forms(text):
+                try:
+                    got = read(make(), None if strict is None else dict(strict))
+                except ValueError as e:
+                    got, sig, why = None, "reread-raised", "ValueError(%s)" % e
+                else:
+                    sig, why = _classify(got, names)
+                if sig:
+                    raise Violation("records:" + sig + ("" if rname == "Deb822.iter_paragraphs" else "@own-class-reader"),
+                                    "%s accepted; dump %s re-read by %s from %s (%s) gives %s: %s; expected "
+                                    "one paragraph with %r" % (how, short(text), rname, fname, sname,
+                                                               short(got), why, names))
+    labels.append("records:written-and-read-back" + (":line-boundary-in-component" if boundary else ""))
+    return (boundary or any(v.strip(" \t") == "" or ":" in v or v[:1] in "#-" for _a, _c, v in hostile), labels)
 
 
 # ------------------------------------------------------------------------------------------
@@ -1108,6 +1341,60 @@ def gen_case(draw):
     return case
 
 
+def _unique(seq):
+    out = []
+    for x in seq:
+        if x not in out:
+            out.append(x)
+    return out
+
+
+REC_POOL = _unique(TOKENS)
+REC_COMBOS = [(c, n, i) for c, n in OWN_PAIRS for i in range(len(components(c, n)))]
+
+
+def enum_record_list_cases(full):
+    """A list of three records (one record for a single-record field) assigned to - or changed in
+    place in - a record field of the paragraph's class: every (class, record field, component) x
+    every token of the value pool, alone and as '7' + token + 'B: x' (position of the record
+    cycling; a token holding LF or CR: the latter in the first, the middle and the last record); where the field stands in the paragraph,
+    kind of record object, route, origin and (Release) the documented size-column setting cycle.
+    ``full``: every string also meets both size settings and every kind of record object."""
+    def gen():
+        j = 0
+        for t in REC_POOL:
+            for c, name, ci in REC_COMBOS:
+                boundary = "\n" in t or "\r" in t
+                for v, ats in ((t, [None]), ("7" + t + "B: x", [0, 1, 2] if boundary else [None])):
+                    for at in ats:
+                        j += 1
+                        base = {"kind": "records", "cls": c, "key": name if j % 5 else _othercase(name),
+                                "place": REC_PLACES[(j // 3) % 4], "n": 3 if j % 7 else 1,
+                                "at": j % 3 if at is None else at, "comp": ci, "value": v,
+                                "rec": REC_TYPES[(j // 2) % 3], "route": REC_ROUTES[(j // 4) % len(REC_ROUTES)],
+                                "origin": ORIGINS[(j // 5) % len(ORIGINS)], "sizes": REC_SIZES[(j // 3) % 2]}
+                        yield base
+                        if full:
+                            for r in range(1, 3):
+                                yield dict(base, rec=REC_TYPES[((j // 2) + r) % 3],
+                                           sizes=REC_SIZES[((j // 3) + r) % 2])
+    return gen
+
+
+@st.composite
+def gen_record_case(draw):
+    cls, name = draw(st.sampled_from(OWN_PAIRS))
+    case = {"kind": "records", "cls": cls, "key": _othercase(name) if draw(st.integers(0, 3)) == 0 else name,
+            "place": draw(st.sampled_from(REC_PLACES)), "n": draw(st.integers(1, 3)),
+            "at": draw(st.integers(0, 2)), "comp": draw(st.integers(0, 4)), "value": draw(any_value),
+            "rec": draw(st.sampled_from(REC_TYPES)), "route": draw(st.sampled_from(REC_ROUTES)),
+            "origin": draw(st.sampled_from(ORIGINS)), "sizes": draw(st.sampled_from(REC_SIZES))}
+    if draw(st.integers(0, 2)) == 0:
+        case["also"] = draw(st.lists(st.tuples(st.integers(0, 2), st.integers(0, 4), any_value),
+                                     min_size=1, max_size=2))
+    return case
+
+
 def sources(tier):
     if tier == "quick":
         return [Enum("values<=4chars", enum_cases(4), EXHAUSTIVE["quick"]),
@@ -1116,11 +1403,15 @@ def sources(tier):
                 Enum("record-fields<=2chars", enum_record_cases(2), EXHAUSTIVE_RECORDS["quick"]),
                 Enum("source-line-ends<=2chars", enum_source_eol_cases(2), EXHAUSTIVE_SOURCE["quick"]),
                 Enum("source-stray<=3chars", enum_source_stray_cases(3), EXHAUSTIVE_STRAY["quick"]),
-                Hyp("token-values", gen_case(), 1200, shards=8)]
+                Enum("record-lists", enum_record_list_cases(False), EXHAUSTIVE_RECORD_LISTS["quick"]),
+                Hyp("token-values", gen_case(), 1200, shards=8),
+                Hyp("record-list-values", gen_record_case(), 400, shards=2)]
     return [Enum("values<=5chars", enum_cases(5), EXHAUSTIVE["thorough"]),
             Enum("routes-classes<=4chars", enum_route_cases(4), EXHAUSTIVE_ROUTES["thorough"]),
             Enum("format-tokens<=4", enum_format_cases(4), EXHAUSTIVE_FORMAT["thorough"]),
             Enum("record-fields<=3chars", enum_record_cases(3), EXHAUSTIVE_RECORDS["thorough"]),
             Enum("source-line-ends<=3chars", enum_source_eol_cases(3), EXHAUSTIVE_SOURCE["thorough"]),
             Enum("source-stray<=4chars", enum_source_stray_cases(4), EXHAUSTIVE_STRAY["thorough"]),
-            Hyp("token-values", gen_case(), 25000, shards=16)]
+            Enum("record-lists-full", enum_record_list_cases(True), EXHAUSTIVE_RECORD_LISTS["thorough"]),
+            Hyp("token-values", gen_case(), 25000, shards=16),
+            Hyp("record-list-values", gen_record_case(), 8000, shards=4)]
